@@ -38,6 +38,9 @@ Apply(s, r) ==
                             ELSE @]
     [] r.e = "quiet" ->
          [s0 EXCEPT !.bad = IF s0.out # "none" /\ ~s0.ended THEN "consumer_not_terminated"
+                            \* a consumer that started reading while the run was live has terminated too (with the end of the
+                            \* stream or with the "already consumed" error) once the run has ended
+                            ELSE IF s0.out # "none" /\ r.consumers2_done < r.consumers2 THEN "second_consumer_not_terminated"
                             ELSE IF s0.nterm >= 1 /\ s0.out = "none" /\ r.done = FALSE THEN "terminal_but_run_not_ended"
                             ELSE @]
     [] OTHER -> s0
